@@ -27,11 +27,12 @@ TClone == Step("clone") /\ SetClone(Ev.t, Ev.t2)
 TIter  == Step("iter")  /\ SetIter(Ev.j, Ev.t)
 TFrom  == Step("from")  /\ SetIterFrom(Ev.j, Ev.t, Ev.k)
 TNext  == Step("next")  /\ SetNext(Ev.j)
+TIClone == Step("iclone") /\ SetIterClone(Ev.j, Ev.j2)
 TReset == Step("reset") /\ S' = [t \in Trees |-> {}]
                         /\ it' = [j \in Iters |-> [live |-> FALSE, tree |-> 1, cur |-> Done]]
 
 TraceInit == SetInit /\ l = 1
-TraceNext == TIns \/ TDel \/ TFind \/ TClone \/ TIter \/ TFrom \/ TNext \/ TReset
+TraceNext == TIns \/ TDel \/ TFind \/ TClone \/ TIter \/ TFrom \/ TNext \/ TIClone \/ TReset
 TraceSpec == TraceInit /\ [][TraceNext]_tvars
 
 (* ---- structural invariant evaluated on the LOGGED real shape *)
@@ -60,10 +61,11 @@ ObsOK ==
     IN /\ e.sh => /\ KeysOfShape(e.shape) = S[tt]
                   /\ CountOfShape(e.shape) = Cardinality(S[tt])
                   /\ IsAvlShape(e.shape)
-       /\ e.e \in {"iter", "from", "next"} =>
-            LET c == it[e.j].cur IN
+       /\ e.e \in {"iter", "from", "next", "iclone"} =>
+            LET oj == IF e.e = "iclone" THEN e.j2 ELSE e.j
+                c  == it[oj].cur IN
             /\ e.ok = (c # Done)
-            /\ (e.ok /\ c \in S[it[e.j].tree]) => e.get = c
+            /\ (e.ok /\ c \in S[it[oj].tree]) => e.get = c
 
 TraceAccepted ==
   IF TLCGet("stats").diameter - 1 = Len(Trace) THEN TRUE
